@@ -5,11 +5,19 @@ from lib import *
 
 EXC = {"IndexError": 1, "AssertionError": 3, "ZeroDivisionError": 4}
 
+HANGS = []
+HANG_COUNT = {}
 def call(f, *a):
+    name = getattr(f, "__qualname__", None) or getattr(f, "__name__", str(f))
+    if HANG_COUNT.get(name, 0) >= 3:       # a function that keeps hanging is not called again (a mutated loop may never terminate)
+        return ("exc", 99)
     try:
-        return ("ok", f(*a))
+        return ("ok", with_timeout(f, *a, seconds=2.0))
     except (IndexError, AssertionError, ZeroDivisionError) as e:
         return ("exc", EXC[type(e).__name__])
+    except ImplTimeout:
+        HANGS.append((name, a)); HANG_COUNT[name] = HANG_COUNT.get(name, 0) + 1
+        return ("exc", 99)
 
 def cout(r, f):
     return "(Ok %s)" % f(r[1]) if r[0] == "ok" else "(Raises %d%%N)" % r[1]
@@ -140,7 +148,7 @@ Definition prop (c:T) := let '(kind, K, F, r) := fst c in spec_isoform_profile (
 """
 
 PRE_OV = """From IQ.gen Require Import Prims.
-From IQ Require Import Intervals IntervalsSpec.
+From IQ Require Import Intervals IntervalsSpec Profile.
 Open Scope Z_scope.
 (* ((kind, delta, absd), K, gene_region, R, mapped_region, polya, polyt) -> (gene profile, read profile, range)
    kind 0: introns (absence = overlaps_at_least(.., absd)); kind 1: exons (absence = contains) *)
@@ -148,7 +156,13 @@ Definition T := (((Z*Z*Z) * list iv * iv * list iv * iv * Z * Z) * (list Z * lis
 Definition absk (kind absd:Z) : iv -> iv -> bool := if kind =? 0 then (fun reg f => py_overlaps_at_least reg f absd) else (fun reg f => py_contains reg f).
 Definition model (c:T) := let '(kda, K, gr, R, mr, pa, pt) := fst c in let '(kind, d, absd) := kda in
   overlapping_profile (fun r k => py_equal_ranges r k d) (absk kind absd) d K gr R mr pa pt.
-Definition check (c:T) := match model c with Some (g, r, rg) => zs_eqb g (fst (fst (snd c))) && zs_eqb r (snd (fst (snd c))) && iv_eqb rg (snd (snd c)) | None => false end.
+Definition check0 (c:T) := match model c with Some (g, r, rg) => zs_eqb g (fst (fst (snd c))) && zs_eqb r (snd (fst (snd c))) && iv_eqb rg (snd (snd c)) | None => false end.
+(* the structural sweep `Profile.gp` (for which the declarative characterisation gp_char is proved) agrees with the state-machine model *)
+Definition raw_agrees (c:T) := let '(kda, K, gr, R, mr, pa, pt) := fst c in let '(kind, d, absd) := kda in
+  let ini := fun k => if absk kind absd mr k then -1 else 0 in
+  match ovs (fun r k => py_equal_ranges r k d) (absk kind absd) (Datatypes.S (length K + length R)) mr K (map ini K) 0 R (map (fun r => if absk kind absd gr r then -1 else 0) R) 0 [] [] [] with
+  | Some (g, _, _) => zs_eqb g (Profile.gp d ini K R false) | None => false end.
+Definition check (c:T) := check0 c && raw_agrees c.
 Definition eqd (d:Z) := fun r k : iv => py_equal_ranges r k d.
 (* present iff a read feature matches within delta (closest candidate); the code deviates only outside H1 (features longer than delta) / H2 (read features more than delta apart): known findings *)
 Definition prop (c:T) := let '(kda, K, gr, R, mr, pa, pt) := fst c in let '(kind, d, absd) := kda in let '(g, r, rg) := snd c in
@@ -326,12 +340,14 @@ def run(ctx):
                 i = rnd.randrange(len(ex)); a, b = ex[i]; ex[i] = (a, max(a, b - rnd.randint(0, 3)))
             trs.append(ex)
         all_ex = sorted(set(e for t in trs for e in t)); all_in = sorted(set(j for t in trs for j in c.junctions_from_blocks(t)))
-        split = GeneInfo.split_exons(all_ex)
+        split = call(GeneInfo.split_exons, all_ex)
+        if split[0] != "ok": continue
+        split = split[1]
         for t in trs:
             region = (t[0][0], t[-1][1])
             for kind, K, F in ((0, all_in, c.junctions_from_blocks(t)), (0, all_ex, t), (1, split, t)):
                 fp = FeatureProfiles(); fp.set_features(K)
-                fp.set_profiles("t", F, region, partial(c.equal_ranges, delta=0) if kind == 0 else c.contains)
+                if call(fp.set_profiles, "t", F, region, partial(c.equal_ranges, delta=0) if kind == 0 else c.contains)[0] != "ok": continue
                 prof = fp.profiles["t"]; rg = fp.profile_ranges["t"]
                 cases.append(("((((%d, %s), %s), %s), (%s, %s))" % (kind, civs(K), civs(F), civ(region), czs(prof), civ(rg)),
                               {"kind": kind, "features": K, "transcript_features": F, "region": region, "profile": prof, "range": rg}))
@@ -382,7 +398,9 @@ def run(ctx):
             cons = OverlappingFeaturesProfileConstructor(K, gene_region, comparator=partial(c.equal_ranges, delta=d),
                                                          absence_condition=(partial(c.overlaps_at_least, delta=absd) if kind == 0 else c.contains), delta=d)
             mapped = (R[0][0] - rnd.randint(0, 3), R[-1][1] + rnd.randint(0, 3))
-            mp = cons.construct_profile_for_features(R, mapped, pa, pt)
+            mp = call(cons.construct_profile_for_features, R, mapped, pa, pt)
+            if mp[0] != "ok": continue
+            mp = mp[1]
             cases.append(("((((((((%d,%d,%d), %s), %s), %s), %s), %s), %s), ((%s, %s), %s))" % (kind, d, absd, civs(K), civ(gene_region), civs(R), civ(mapped), cz(pa), cz(pt),
                           czs(mp.gene_profile), czs(mp.read_profile), civ(mp.gene_profile_range)),
                           {"kind": kind, "delta": d, "absence_delta": absd, "known": K, "gene_region": gene_region, "read": R, "mapped_region": mapped, "polya": pa, "polyt": pt,
@@ -427,4 +445,6 @@ def run(ctx):
     ctx.rule("truncate_read_to_polya: lists of <=3 exons over 6 positions x all polyA/polyT cut positions")
     mism, viol = ctx.corr("truncate_read_to_polya", PRE_TRUNC, cases, shard=600)
     ctx.corr_report("truncate_read_to_polya", mism, viol, keyfn=key_tr)
+    for name, a in HANGS[:5]:
+        ctx.violation(None, "%s does not terminate within 3 s" % name, {"function": name, "arguments": a})
     ctx.assume.append("CPython list/tuple/int semantics; floats compared bit-exactly through PrimFloat (kernel primitive floats)")
